@@ -309,7 +309,7 @@ UNITS["lemmas"] = {
     "contracts": ["ctors.vc", "gens.vc"],
     "pieces": types() + RPT_ITEMS + [
         text("spec/tproto_trait.rs"), text("spec/sproto_trait.rs"), text("spec/spec_transcript.rs"), text("spec/spec_mask.rs"), text("spec/spec_wf.rs"),
-        text("spec/spec_verify.rs"), text("spec/spec_relation.rs"), text("spec/spec_prove.rs"), text("spec/lemmas_c09.rs"), text("spec/lemmas_c02.rs"),
+        text("spec/spec_verify.rs"), text("spec/spec_relation.rs"), text("spec/spec_prove.rs"), text("spec/lemmas_c09.rs"), text("spec/lemmas_c02.rs"), text("spec/lemmas_c05.rs"),
     ],
     "safety": {},
 }
